@@ -43,10 +43,35 @@ func (s *State) Heap(vc *VC, name string, sort Sort) Term {
 		return t
 	}
 	c := fmt.Sprintf("%s!g%d", name, s.gen)
+	fresh := !vc.env.declared[c]
 	vc.declConst(c, sort)
 	t := Term{c, sort}
 	s.heaps[name] = t
+	if fresh && strings.HasPrefix(name, "A_") && s.top.S != "" {
+		vc.aliveBound(t, s.top)
+	}
+	if fresh && strings.HasPrefix(name, "Mv_") {
+		vc.mapWF(s, name)
+	}
 	return t
+}
+
+// mapWF: representation invariant of the map model for the current constants of
+// a map's heaps: absent keys hold the zero value, the nil map is empty.
+func (vc *VC) mapWF(s *State, vn string) {
+	mi, ok := vc.env.mapInfo[vn]
+	if !ok {
+		return
+	}
+	vt := s.heaps[vn]
+	dt := s.Heap(vc, mi.dom, mi.ds)
+	vc.assume(Term{fmt.Sprintf("(forall ((m Int) (k %s)) (! (=> (not (select (select %s m) k)) (= (select (select %s m) k) %s)) :pattern ((select (select %s m) k))))", mi.ks, dt.S, vt.S, mi.zero.S, vt.S), SBool})
+	vc.assume(Term{fmt.Sprintf("(forall ((k %s)) (! (not (select (select %s 0) k)) :pattern ((select (select %s 0) k))))", mi.ks, dt.S, dt.S), SBool})
+}
+
+// aliveBound: objects recorded as alive are allocated (base <= top).
+func (vc *VC) aliveBound(alive Term, top Term) {
+	vc.assume(Term{fmt.Sprintf("(forall ((r Int)) (! (=> (select %s r) (<= (base r) %s)) :pattern ((select %s r))))", alive.S, top.S, alive.S), SBool})
 }
 
 func (s *State) SetHeap(name string, t Term) { s.heaps[name] = t }
@@ -101,11 +126,13 @@ type VC struct {
 	topFrame    *Frame
 	exitVars    map[string]scopeVar
 	lemmaName   string
+	axiomsDone  map[string]bool
+	lemmasUsed  map[string]bool
 }
 
 func NewVC(p *Prog, fn *ssa.Function, c *Contract) *VC {
 	vc := &VC{p: p, env: NewEnv(), fn: fn, c: c, defs: map[string]*defInfo{}, trustedUsed: map[string]bool{}, inlinedFns: map[string]bool{},
-		calledContracts: map[string]bool{}, globalRefs: map[*ssa.Global]Term{}, ifaceAsserted: map[string]types.Type{}, concreteTags: map[string]types.Type{}, fnTags: map[*ssa.Function]int{}}
+		calledContracts: map[string]bool{}, lemmasUsed: map[string]bool{}, globalRefs: map[*ssa.Global]Term{}, ifaceAsserted: map[string]types.Type{}, concreteTags: map[string]types.Type{}, fnTags: map[*ssa.Function]int{}}
 	vc.env.Decl("godiv", "(define-fun godiv ((a Int) (b Int)) Int (ite (= b 0) 0 (ite (>= a 0) (ite (> b 0) (div a b) (- (div a (- b)))) (ite (> b 0) (- (div (- a) b)) (div (- a) (- b))))))")
 	vc.env.Decl("gomod", "(define-fun gomod ((a Int) (b Int)) Int (- a (* b (godiv a b))))")
 	vc.env.DeclFun("impl", []Sort{SInt, SInt}, SBool)
